@@ -9,7 +9,7 @@ from props.tapecommon import CaseDir, model_outcome, run_tool, status_class
 
 GEN_FILES = ["GenDisk", "GenTape"]
 RULE = ("valid archives (independent writers of C07/C08) mutated: random flips in table / catalogue / leader bytes; allocation-table self-links, 2- and n-cycles, links to "
-        "free or reserved blocks, random tables; first-block bytes 160..255; last-sector counts up to 65535; names holding '/', '..', a leading '/', NUL, bytes >= 80, and UTF-8 sequences of characters that fold to '.' or '/' (two dot leader, fullwidth solidus...), percent and backslash spellings; truncations; "
+        "free or reserved blocks, random tables; first-block bytes 160..255; last-sector counts up to 65535; names holding '/', '..', a leading '/', NUL, bytes >= 80, and UTF-8 sequences of characters that fold to '.' or '/' (two dot leader, fullwidth solidus...), percent and backslash spellings, also on a tape damaged inside that member with a file lying where the raw name would lead; truncations; "
         "wholly random catalogues; tapes with garbage type bytes, truncated blocks, thousands of markers; both disk flavours and tapes. Oracle on the real tool only: list and "
         "extract return (report or error) within the time limit and without MemoryError under a 3 GiB address-space limit; every file or directory extract creates or opens for "
         "writing resolves inside the destination (its sideN sub-directories for disks); nothing outside the destination changes. The extracted model is compared too (exit class, effects, "
@@ -128,6 +128,12 @@ def gen_cases(rng, tier):
     for a, b in pairs:
         t = {"files": [{"name": a, "ext": b, "kind": 1, "mode": 0, "chunks": [{"pat": "41", "len": 5}]}], "wseed": 1, "tail": 0, "tailfill": 0}
         cases.append({"kind": "tape", "tape": t, "mseed": 0, "verbose": False, "pair": [a, b]})
+    # the same pairs on a tape damaged INSIDE that member (an unknown block type after the leader), with a file already lying where the raw NAME.EXT
+    # would lead: an error path must not touch anything outside the destination either
+    for a, b in pairs:
+        if "/" in a + b or ".." in a + b or "\\" in a + b:
+            t = {"files": [{"name": a, "ext": b, "kind": 1, "mode": 0, "chunks": [{"pat": "41", "len": 5}, {"pat": "42", "len": 300}]}], "wseed": 1, "tail": 0, "tailfill": 0}
+            cases.append({"kind": "tape", "tape": t, "mseed": 0, "verbose": False, "pair": [a, b], "damage": True})
     dp = pairs if tier == "thorough" else rng.sample(pairs, 48)
     for a, b in dp:
         cases.append({"kind": "disk", "spec": gen_third_party(rng, nsides=rng.choice([1, 4]), is_fd=rng.random() < 0.6, max_files=2), "mseed": 0, "verbose": False, "pair": [a, b]})
@@ -223,6 +229,22 @@ def run_case(case, ctx):
             raw, _ = c08.write_tape(case["tape"])
             if "pair" in case:
                 muts.add("pair")
+                if case.get("damage"):
+                    muts.add("damage")
+                    bb = bytearray(raw)
+                    marks = [i for i in range(len(bb) - 6) if bb[i:i + 5] == b"\x01\x01\x01\x3c\x5a"]
+                    if len(marks) > 2:
+                        bb[marks[2] + 5] = 0x7F      # the second data block of the member gets an unknown type
+                    raw = bytes(bb)
+                    try:
+                        label = case["pair"][0].encode("latin1").ljust(8)[:8].decode("utf-8").strip() + "." + case["pair"][1].encode("latin1").ljust(3)[:3].decode("utf-8").strip()
+                        q = os.path.normpath(os.path.join(cd.cwd, "d", label))
+                        if q.startswith(cd.root + os.sep) and not os.path.lexists(q) and "\x00" not in q:
+                            os.makedirs(os.path.dirname(q), exist_ok=True)
+                            with open(q, "wb") as f_:
+                                f_.write(b"keep me")
+                    except (UnicodeDecodeError, OSError):
+                        pass
             else:
                 raw = mutate_tape(rng, raw, muts)
             arch = "d/t.k7"
